@@ -39,16 +39,39 @@ Definition de_s (e : derr) : string :=
   end.
 Definition ao_s (o : outcome) : string := match o with Proceed => "Proceed" | Abort e => "Abort(" +++ te_s e +++ ")" end.
 
+(* #[derive(Debug)] renderings (names are identifier-like: no character needs escaping) *)
+Definition q (s : string) : string := """" +++ s +++ """".
+Definition kind_dbg (k : akind) : string :=
+  match k with
+  | AKGuard g => "GuardFailed { guard: " +++ q g +++ " }"
+  | AKAction a => "ActionFailed { action: " +++ q a +++ " }"
+  | AKInvalid => "InvalidTransition"
+  end.
+Definition ge_dbg (e : gerr) : string :=
+  "GuardError { guard: " +++ q (ge_guard e) +++ ", event: " +++ q (ge_event e) +++ ", kind: " +++ kind_dbg (ge_kind e) +++ " }".
+Definition de_dbg (e : derr) : string :=
+  match e with
+  | DInvalid f ev => "InvalidTransition { from: " +++ q f +++ ", event: " +++ q ev +++ " }"
+  | DGuardFailed g ev => "GuardFailed { guard: " +++ q g +++ ", event: " +++ q ev +++ " }"
+  | DActionFailed a ev => "ActionFailed { action: " +++ q a +++ ", event: " +++ q ev +++ " }"
+  | DWrongState ex ac o => "WrongState { expected: " +++ q ex +++ ", actual: " +++ q ac +++ ", operation: " +++ q o +++ " }"
+  end.
+
 Definition k4_lines (names : list ident) : list string :=
   flat_map (fun a => flat_map (fun b =>
     [ "te_invalid|" +++ a +++ "|" +++ b +++ "|" +++ te_s (te_invalid_transition a b);
       "ge_new|" +++ a +++ "|" +++ b +++ "|" +++ ge_s (ge_new a b);
       "de_invalid|" +++ a +++ "|" +++ b +++ "|" +++ de_s (de_invalid_transition a b);
       "de_guard|" +++ a +++ "|" +++ b +++ "|" +++ de_s (de_guard_failed a b);
-      "de_action|" +++ a +++ "|" +++ b +++ "|" +++ de_s (de_action_failed a b) ]
+      "de_action|" +++ a +++ "|" +++ b +++ "|" +++ de_s (de_action_failed a b);
+      "dbg_de_invalid|" +++ a +++ "|" +++ b +++ "|" +++ de_dbg (de_invalid_transition a b);
+      "dbg_de_guard|" +++ a +++ "|" +++ b +++ "|" +++ de_dbg (de_guard_failed a b);
+      "dbg_de_action|" +++ a +++ "|" +++ b +++ "|" +++ de_dbg (de_action_failed a b);
+      "dbg_ge|" +++ a +++ "|" +++ b +++ "|" +++ ge_dbg (ge_new a b) ]
     ++ flat_map (fun c =>
          [ "te_guard|" +++ a +++ "|" +++ b +++ "|" +++ c +++ "|" +++ te_s (te_guard_failed a b c);
-           "de_wrong|" +++ a +++ "|" +++ b +++ "|" +++ c +++ "|" +++ de_s (de_wrong_state a b c) ]
+           "de_wrong|" +++ a +++ "|" +++ b +++ "|" +++ c +++ "|" +++ de_s (de_wrong_state a b c);
+           "dbg_de_wrong|" +++ a +++ "|" +++ b +++ "|" +++ c +++ "|" +++ de_dbg (de_wrong_state a b c) ]
          ++ flat_map (fun k =>
               [ "ge_with|" +++ a +++ "|" +++ b +++ "|" +++ kind_s k +++ "|" +++ ge_s (ge_with_kind a b k);
                 "from_ge|" +++ a +++ "|" +++ b +++ "|" +++ kind_s k +++ "|" +++ de_s (from_guard_error (ge_with_kind a b k));
